@@ -355,6 +355,26 @@ def r_commit_gate(ctx):
                                 and not (isinstance(d.value, ast.Constant) and d.value.value is None)]
                         if not defs or any(res_avoid.reached(U.node_containing(cfg, d).id) for d in defs):
                             continue
+                        # the bound itself: outside the snapshot-install path it comes from the message, never from the follower's own log end
+                        inst_src = 'verified index `%s` is derived from the message' % L
+                        inst_nodes = [x.id for x in install_nodes(ctx, ex)]
+                        bad_src = None
+                        for d in defs:
+                            dn = U.node_containing(cfg, d)
+                            if dn is None or not res.reached(dn.id):
+                                continue
+                            if inst_nodes and dn.id not in cfg.reachable_from(info['entry'], avoid=inst_nodes):
+                                continue        # only reachable through a completed snapshot install: the log was just replaced by the snapshot
+                            dt = ex.tb.term(d.value)
+                            ctx.tick()
+                            if any(_alias_dep(f2, dt, 'A:' + R.log) for f2 in res.facts_at(dn.id)):
+                                bad_src = d
+                        if bad_src is not None:
+                            ctx.violation('%s:verified-index-from-own-log' % h.qualname, h.loc(bad_src),
+                                          '`%s`: the index up to which this append_entries is taken to have verified the log is computed from the follower\'s own log, which may '
+                                          'extend beyond what the message carried: a stale suffix is then committed and executed' % unparse(bad_src), instance=inst_src)
+                        else:
+                            ctx.ok(inst_src, h.loc(defs[0]), '%d definition(s) outside the install path, none depends on self.%s' % (len(defs), R.log))
                         inst4 = 'commit index write `%s` bounded by the verified index `%s`' % (unparse(st), L)
                         lt_ = ex.tb.term(ast.Name(id=L, ctx=ast.Load()))
                         okb = _is_min_with(st.value, ex, res, n, L) or all(oracle.entails(f2, ('le', ex.tb.term(st.value), lt_)) for f2 in res.facts_at(n.id))
@@ -433,6 +453,22 @@ def r_log_owners(ctx):
         if succ:
             ok = True
             why = 'under must-fact serializer state == SUCCESS'
+            # ... and only up to the position that dump covers: the id reported together with SUCCESS
+            idv = None
+            for d in U.walk_no_nested(f.node):
+                if isinstance(d, ast.Assign) and isinstance(d.targets[0], (ast.Tuple, ast.List)) and len(d.targets[0].elts) == 2 and isinstance(d.value, ast.Call) \
+                        and isinstance(d.value.func, ast.Attribute) and d.value.func.attr == 'checkSerializing' and isinstance(d.targets[0].elts[1], ast.Name):
+                    idv = d.targets[0].elts[1].id
+            inst_id = 'head drop in %s goes up to the position the finished dump covers' % f.qualname
+            ctx.tick()
+            if idv is None or not c.args:
+                ctx.unproven(inst_id, f.loc(c), 'the id reported by checkSerializing() is not unpacked into a local')
+            elif all(oracle.entails(fs, ('eq', fex.tb.term(c.args[0]), fex.tb.term(ast.Name(id=idv, ctx=ast.Load())))) for fs in fres.facts_at(n.id)):
+                ctx.ok(inst_id, f.loc(c), 'argument is the id `%s` returned with SUCCESS' % idv)
+            else:
+                ctx.violation('%s:head-drop-not-at-dump-position' % f.qualname, f.loc(c),
+                              'the log head is dropped up to `%s`, not up to the id `%s` the serializer reported with SUCCESS: entries applied while the dump was being written are '
+                              'cut from the journal although no dump contains them (lost on restart)' % (unparse(c.args[0]), idv), instance=inst_id)
         elif f is loader:
             # (b) journal proven to contain the dump entries: an equality between a slice of the log and a list of dump entries
             def has_contain_fact(fs):
